@@ -35,19 +35,19 @@ ASSUMPTIONS = [
 ]
 MIN_COUNTERS = {
     "quick": {
-        "scenes_accepted": 1200,
+        "scenes_accepted": 700,
         "candidates_rejected": 1500,
-        "invariant_checks": 1200,
+        "invariant_checks": 700,
         "oracle_pairs_definite_disjoint": 2000,
         "oracle_containment_definite_in": 1000,
-        "oracle_user_predicates": 1500,
+        "oracle_user_predicates": 900,
         "oracle_soft_active": 100,
         "oracle_visibility_definite": 80,
         "distinct_orderings": 150,
         "candidates_with_optional_dropped": 50,
         "checker.WeightedAcceptanceChecker": 20,
         "checker.BasicChecker": 10,
-        "clock_scripted_scenarios": 20,
+        "clock_scripted_scenarios": 15,
         "req_eval.IntersectionRequirement": 3000,
         "req_eval.ContainmentRequirement": 1500,
         "req_eval.VisibilityRequirement": 100,
